@@ -353,6 +353,16 @@ def gen_build(r, case_dir, broken_links=False):
                "on_missing": r.choice([None, "ignore", "warn", "error"] if base == "missing"
                                       else [None, "ignore", "warn", "error", "error"])}
         includes.append(inc)
+    # overlapping includes, the shallower one first: a directory reached with little depth left by one entry
+    # is still archived down to the depth another entry configures for it
+    dirs = [t for t in tops if os.path.isdir(os.path.join(tgt, t)) and not os.path.islink(os.path.join(tgt, t))]
+    if dirs and r.random() < 0.35:
+        base = r.choice(dirs)
+        subs = sorted(x for x in os.listdir(os.path.join(tgt, base))
+                      if os.path.isdir(os.path.join(tgt, base, x)) and not os.path.islink(os.path.join(tgt, base, x)))
+        includes.append({"path": base, "depth": r.choice([0, 1, 2]), "on_missing": None})
+        includes.append({"path": base + "/" + r.choice(subs) if subs else base, "depth": r.choice([3, 4, "infinite"]),
+                         "on_missing": None})
     summary = {
         "rust-build-meta": {
             "target-directory": tgt, "base-output-directories": ["debug"],
@@ -1656,6 +1666,10 @@ def section_cli(chk, r, binary, rig, n, distinct):
                 includes.append(dict(path=rr.choice([base, "./" + base, base + "/"]),
                                      depth=rr.choice([None, 0, 1, 2, 3, 4, "infinite"]),
                                      on_missing=rr.choice([None, "warn", "ignore"])))
+            if ci % 2 == 0:
+                # overlapping includes, the shallower one first
+                includes = [dict(path=xname, depth=1, on_missing=None),
+                            dict(path=xname + "/p", depth="infinite", on_missing=None)] + includes
             case = dict(target_dir=tgt, summary=summary, includes=includes)
             tests = {}
             for bid in summary["rust-binaries"]:
